@@ -1,6 +1,8 @@
 //! Write-ahead log (WAL) implementation for the ingester.
 
 use crate::{Error, Result};
+#[cfg(cardinalsin_verif)]
+use crate::verif_hooks::{shim_std as std, shim_tokio as tokio};
 use arrow_array::RecordBatch;
 use arrow_ipc::reader::StreamReader;
 use arrow_ipc::writer::StreamWriter;
